@@ -289,7 +289,7 @@ def one_history(ctx, hseed):
     rng = random.Random("hist-%d-%d" % (ctx.seed, hseed))
     root = tempfile.mkdtemp(prefix="ropeverif-c12-")
     replay = {"kind": "history", "hseed": hseed, "base_seed": ctx.seed}
-    result = {"hcase": None, "objdb_values": []}
+    result = {"hcase": None, "objdb_values": [], "objdb_case": None}
     try:
         limit = rng.choice([2, 3, 100, 100])
         project = Project(root, save_history=True, save_objectdb=True, max_history_items=limit)
@@ -327,8 +327,16 @@ def one_history(ctx, hseed):
         deps_before = (dep_indices(project.history, project.history.undo_list),
                        dep_indices(project.history, project.history.redo_list))
         reopen_times = rng.randint(1, 2)
-        for _ in range(reopen_times):
+        for ri in range(reopen_times):
             project.close()
+            if ri == 0:
+                try:
+                    import json as _json
+                    with open(os.path.join(root, ".ropeproject", "objectdb.json")) as jf:
+                        result["objdb_case"] = (objdb_before, _json.load(jf))
+                except Exception as e:  # the side file is part of what close() writes
+                    ctx.violation(dict(replay, phase="objectdb-json", error=repr(e)),
+                                  "C12 object db: the JSON side file written at close cannot be read back")
             project = Project(root, save_history=True, save_objectdb=True, max_history_items=limit)
         undo_after = [abstract(c) for c in project.history.undo_list]
         redo_after = [abstract(c) for c in project.history.redo_list]
@@ -560,6 +568,42 @@ def twin_history(ctx, hseed):
         shutil.rmtree(rb, ignore_errors=True)
 
 
+def run_objdb_cases(ctx, ocases):
+    """Model save_db on the live object db vs what close() wrote (the JSON side file holds every
+    ScopeInfo.__getstate__); compared inside Coq (PersistRunner.run_ocase)."""
+    from harness.c12 import g_pyval, g_jsval, all_strings
+    from harness.common import g_pair
+    if not ocases:
+        return
+    terms = []
+    for (db, saved) in ocases:
+        strs = []
+        for path, scopes in db.items():
+            for key, (ci, pn) in scopes.items():
+                all_strings(ci, strs)
+                all_strings(pn, strs)
+        all_strings(saved, strs)
+        digits = sorted({ord(c) for s in strs for c in s if c.isdigit()})
+        g_db = g_list([g_pair(g_text(path), g_list([g_pair(g_text(k), g_pair(g_pyval(ci), g_pyval(pn)))
+                                                    for k, (ci, pn) in scopes.items()]))
+                       for path, scopes in db.items()])
+        g_saved = g_list([g_pair(g_text(path), g_list([
+            g_pair(g_text(k), "(%s, %s, %s)" % (g_jsval(st.get("data")), g_list([g_jsval(x) for x in st.get("references", [])]),
+                                                g_text(st.get("$", ""))))
+            for k, st in scopes.items()])) for path, scopes in saved.items()])
+        terms.append("{| oc_digits := %s; oc_db := %s; oc_saved := %s |}" % (g_list([g_N(d) for d in digits]), g_db, g_saved))
+    out = ctx.coq_file(PHEADER + "From RopeVerif.C12 Require Import Runner.\nDefinition cases : list ocase := %s.\n"
+                       "Eval vm_compute in (omismatches cases).\n" % g_list(terms).replace("; {|", ";\n {|"))
+    pairs = ctx.parse_pairs(out)
+    for (i, code) in (pairs[0] if pairs else []):
+        ctx.violation({"kind": "objectdb-model", "code": code, "db": repr(ocases[i][0])[:2000], "saved": repr(ocases[i][1])[:2000],
+                       "broken": "correspondence PersistRunner.run_ocase (Persist.save_db/load_db vs MemoryDB.write / ScopeInfo.__getstate__); theorem C12_objectdb_roundtrip no longer speaks about the code"},
+                      "C12 object db: model save_db disagrees with what close() wrote", no_input=True)
+    ctx.extra["persist_objdb_cases"] = len(ocases)
+    for _ in ocases:
+        ctx.traces += 1
+
+
 def objdb_plain(project):
     db = project.pycore.object_info.objectdb.files
     res = {}
@@ -585,9 +629,11 @@ def run(ctx):
     finally:
         shutil.rmtree(root, ignore_errors=True)
     nh = ctx.scale(40, 400)
-    hcases, objvals = [], []
+    hcases, objvals, ocases = [], [], []
     for h in range(nh):
         r = one_history(ctx, h)
+        if r.get("objdb_case") and r["objdb_case"][0]:
+            ocases.append(r["objdb_case"])
         ctx.case(("history", h), nontrivial=r["hcase"] is not None and len(r["hcase"][1]) + len(r["hcase"][2]) >= 2)
         ctx.traces += 1
         if r["hcase"]:
@@ -608,6 +654,7 @@ def run(ctx):
                            "broken": "correspondence PersistRunner.run_hcase (Persist.close/reopen vs History.write/_load_history); theorem C12_reopen_lists no longer speaks about the code"},
                           "C12 history: model close/reopen disagrees with the implementation", no_input=True)
     ctx.extra["persist_histories"] = len(hcases)
+    run_objdb_cases(ctx, ocases)
     nt = ctx.scale(40, 400)
     for h in range(nt):
         before = len(ctx.violations)
